@@ -101,7 +101,13 @@ ALLOF_ALL = [("allof", k, d, w, f) for k in ALLOF_KINDS for d in ("fwd", "rev") 
 ALLOF_QUICK = [("allof", k, d, ("cand", "twin")[i % 2], ("inline", "ref")[(i // 2) % 2])
                for i, (k, d) in enumerate((k, d) for k in ALLOF_KINDS for d in ("fwd", "rev"))]
 ALLOF_ACTIVE = list(ALLOF_QUICK)       # run() switches to ALLOF_ALL for the thorough tier
-TWIN_PLACEMENTS = ("modelraw", "paramraw", "allof")
+TWIN_PLACEMENTS = ("modelraw", "paramraw", "allof", "paramx")
+# two parameters of ONE operation in DIFFERENT locations whose names are different strings with the same python name (header UNSET + query unset):
+# (candidate location, twin location, body?)  - the generator must tell them apart by the location suffix, never by their raw spelling
+LOCS = ("path", "query", "header", "cookie")
+PARAMX_ALL = [("paramx", a, b, body) for a in LOCS for b in LOCS if a != b for body in ("nobody", "body")]
+PARAMX_QUICK = [("paramx", "header", "query", "nobody"), ("paramx", "query", "header", "body"), ("paramx", "cookie", "path", "nobody"), ("paramx", "path", "cookie", "body")]
+PARAMX_ACTIVE = list(PARAMX_QUICK)
 
 MODEL_PLACEMENTS = [("model", k, r, "typed") for k in KINDS for r in ("req", "opt")] + [("model", "str", "req", "any"), ("multipart", "str", "req"), ("multipart", "date", "opt")]
 PARAM_PLACEMENTS = [("param", loc, b) for loc in ("path", "query", "header", "cookie") for b in ("nobody", "body")]
@@ -110,7 +116,7 @@ PARAM_PLACEMENTS = [("param", loc, b) for loc in ("path", "query", "header", "co
 REDUCED = [("model", "str", "req", "typed"), ("param", "query", "body"), ("param", "path", "nobody")]
 
 
-def placements_for(name, scopes, regular=True, reduced=False, raw=True):
+def placements_for(name, scopes, regular=True, reduced=False, raw=True, twinx=True):
     """regular=False: only the raw-name pair placements (for a name that PythonIdentifier changes, the regular placements
     exercise the changed spelling, which is a different candidate); reduced: one model / one query-with-body / one path placement;
     a spelling with a space cannot be an HTTP header / cookie name nor a path placeholder (the generator's path regex refuses it with a diagnostic): model and query placements only"""
@@ -128,6 +134,8 @@ def placements_for(name, scopes, regular=True, reduced=False, raw=True):
             out += ALLOF_ACTIVE
         if e:
             out.append(("paramraw", "query"))
+    if twinx and e and name.isidentifier() and partner_of(name) is not None:
+        out += PARAMX_ACTIVE
     return out
 
 
@@ -171,6 +179,15 @@ def build_doc(units):
             schemas[f"ZqP{uid}"] = {"type": "object", "properties": props, "required": [n] if req == "req" else [], "additionalProperties": {"$ref": REF + "ZqRef"}}
             paths[f"/zq/mp{uid}"] = {"post": {"operationId": f"zq_mp{uid}", "tags": ["zqtag"], "responses": {"200": {"description": "ok"}},
                                              "requestBody": {"required": True, "content": {"multipart/form-data": {"schema": {"$ref": REF + f"ZqP{uid}"}}}}}}
+        elif pl[0] == "paramx":
+            _, loc1, loc2, bd = pl
+            params = [P(n, loc1, {"type": "string"}), P(u["partner"], loc2, {"type": "string"}),
+                      P("zq_sq", "query", D), P("zq_sh", "header", {"type": "string"}), P("zq_sc", "cookie", {"type": "string"})]
+            o = {"operationId": f"zq_o{uid}", "tags": ["zqtag"], "parameters": params, "responses": ok200}
+            if bd == "body":
+                o["requestBody"] = {"required": True, "content": {"application/json": {"schema": {"$ref": REF + "ZqRef"}}}}
+            path = f"/zq/u{uid}" + ("/{" + n + "}" if loc1 == "path" else "") + ("/{" + u["partner"] + "}" if loc2 == "path" else "")
+            paths[path] = {"post" if bd == "body" else "get": o}
         elif pl[0] in ("param", "paramraw"):
             loc = pl[1]
             body = len(pl) > 2 and pl[2] == "body"
@@ -280,7 +297,10 @@ def norm_kwargs(r, wtab, uid):
 DROP_HEADERS = {"user-agent", "host", "accept", "accept-encoding", "connection", "content-length"}
 
 
-def norm_call(r, wire, wtab, uid):
+def norm_call(r, wire, wtab, uid, htab=None, ctab=None):
+    """htab: lower-case header name -> tag, ctab: cookie name -> tag (default: the candidate's wire name in either)"""
+    htab = {wire.lower(): "<cand>"} if htab is None else htab
+    ctab = {wire: "<CAND>"} if ctab is None else ctab
     if "fatal_op" in r:
         return {"fatal": norm_exc(r["fatal_op"])}
     out = {}
@@ -294,9 +314,13 @@ def norm_call(r, wire, wtab, uid):
             if kl in DROP_HEADERS:
                 continue
             if kl == "cookie":
-                parts = sorted(p.strip() for p in v.split(";"))
-                v = "; ".join(("<CAND>" + p[len(wire):]) if p.startswith(wire + "=") else p for p in parts)
-            hs.append(["<cand>" if kl == wire.lower() else kl, v])
+                parts = []
+                for p in v.split(";"):
+                    p = p.strip()
+                    cn, _, cv = p.partition("=")
+                    parts.append(ctab.get(cn, cn) + "=" + cv)
+                v = "; ".join(sorted(parts))
+            hs.append([htab.get(kl, kl), v])
         reqs.append({"method": q["method"], "path": urllib.parse.urlsplit(q["url"]).path.replace(f"u{uid}", "u#"),
                      "query": sorted([wtab.get(k, k), v] for k, v in q["query"]), "headers": sorted(hs), "content": q["content_hex"]})
     out["requests"] = reqs
@@ -353,7 +377,7 @@ def process(units, depth=0):
             cls2unit = {c: u for u in live for c in unit_classes(u)}
             op2unit = {}
             for u in live:
-                if u["pl"][0] in ("param", "paramraw"):
+                if u["pl"][0] in ("param", "paramraw", "paramx"):
                     op2unit[f"api/zqtag/zq_o{u['uid']}.py"] = u
                 elif u["pl"][0] == "multipart":
                     op2unit[f"api/zqtag/zq_mp{u['uid']}.py"] = u
@@ -484,7 +508,12 @@ def process(units, depth=0):
                     r["obs"].setdefault("kw", []).append(norm_kwargs(r0, wtab, uid))
                 else:
                     vec, ep = arg
-                    r["obs"].setdefault(what, []).append(norm_call(r0, wire, wtab, uid))
+                    htab = ctab = None
+                    if u["pl"][0] == "paramx":
+                        byloc = {u["pl"][1]: (wire, "<CAND>"), u["pl"][2]: (u["partner"], "<PARTNER>")}
+                        htab = {byloc["header"][0].lower(): byloc["header"][1]} if "header" in byloc else {}
+                        ctab = {byloc["cookie"][0]: byloc["cookie"][1]} if "cookie" in byloc else {}
+                    r["obs"].setdefault(what, []).append(norm_call(r0, wire, wtab, uid, htab, ctab))
                     exp = C03.expectation(doc, ep, vec)
                     if exp is not None:
                         if "exc" in r0 or "fatal_op" in r0:
@@ -534,10 +563,10 @@ def work(job):
 
 
 # ------------------------------------------------------------------ the check
-def make_units(cands, table_scopes, raw_only=(), reduced=(), spellings=()):
+def make_units(cands, table_scopes, raw_only=(), reduced=(), spellings=(), paramx_only=()):
     units = []
     for name in cands:
-        for pl in placements_for(name, table_scopes[name], regular=name not in raw_only, reduced=name in reduced, raw=name not in spellings):
+        for pl in placements_for(name, table_scopes[name], regular=name not in raw_only and name not in paramx_only, reduced=name in reduced, raw=name not in spellings):
             u = {"name": name, "pl": pl, "key": name + "|" + pl_str(pl)}
             if pl[0] in TWIN_PLACEMENTS:
                 u["partner"] = partner_of(name)
@@ -567,7 +596,7 @@ def control_units():
     out = [{"name": NEUTRAL, "pl": pl, "key": NEUTRAL + "|" + pl_str(pl)} for pl in MODEL_PLACEMENTS + PARAM_PLACEMENTS]
     out.append({"name": "ZqNeutral", "pl": ("modelraw",), "partner": "zq_neutral", "key": NEUTRAL + "|modelraw"})
     out.append({"name": "ZqNeutral", "pl": ("paramraw", "query"), "partner": "zq_neutral", "key": NEUTRAL + "|paramraw:query"})
-    out += [{"name": "ZqNeutral", "pl": pl, "partner": "zq_neutral", "key": NEUTRAL + "|" + pl_str(pl)} for pl in ALLOF_ACTIVE]
+    out += [{"name": "ZqNeutral", "pl": pl, "partner": "zq_neutral", "key": NEUTRAL + "|" + pl_str(pl)} for pl in ALLOF_ACTIVE + PARAMX_ACTIVE]
     for u in out:
         u["control"] = True
     return out
@@ -598,8 +627,9 @@ def run(run, tier, replay=None):
     rng = run.rng
     table = load_table()
     known_names = {f["witness"].get("name") for f in run.known.values() if isinstance(f.get("witness"), dict)}
-    global ALLOF_ACTIVE
+    global ALLOF_ACTIVE, PARAMX_ACTIVE
     ALLOF_ACTIVE = list(ALLOF_ALL if tier == "thorough" else ALLOF_QUICK)
+    PARAMX_ACTIVE = list(PARAMX_ALL if tier == "thorough" else PARAMX_QUICK)
     names, scopes, raw_only = select(table, tier, rng, known_names)
     table_names = set(scopes)
     # spellings that python_identifier must keep apart from a template identifier N (or fold onto N's own python name): _N, __N, N_, ' N', -N, N-, case variants
@@ -629,11 +659,19 @@ def run(run, tier, replay=None):
     hot = sorted(name_bad, key=lambda sp: (pyname[sp] not in table_names, len(sp), sp))[:40]
     sp_pick = sorted(set(sp_pick) | set(hot) & set(spell))
     reduced -= set(hot)
-    names = sorted(set(names) | set(sp_pick))
+    # quick: the upper / title case spelling of every function-scope identifier that is its own python name gets (only) the cross-location twin placements
+    px_only = set()
+    if tier != "thorough":
+        for n0 in list(names):
+            if n0 in table_names and pyid(n0) == n0 and any(sc.startswith(FUNCTION_SCOPES) for sc in scopes[n0]):
+                for sp in (n0.upper(), n0.title()):
+                    if sp in spell and sp not in sp_pick and sp not in table_names and sp.isidentifier() and partner_of(sp) is not None:
+                        px_only.add(sp)
+    names = sorted(set(names) | set(sp_pick) | px_only)
     scopes[NEUTRAL] = ["control"]
     scopes["ZqNeutral"] = ["control"]
     only_spelling = set(spell) - table_names
-    units = make_units(names, scopes, raw_only, reduced, only_spelling)
+    units = make_units(names, scopes, raw_only, reduced, only_spelling, px_only)
     if replay:
         want = {(v["name"], v["placement"]) for v in rp["violations"] if "name" in v and "placement" in v}
         for n, _ in want:
@@ -668,6 +706,8 @@ def run(run, tier, replay=None):
                 "Twin placements (every candidate N that has a twin T with the same python name before de-confliction: From / from, Class / class, HTTPStatus / http_status, UNSET / unset): N and T as "
                 "raw-name pair (model, query) and as sibling properties of a model REFINED through allOf - {untyped->string, string->date, number->integer, string->enum} x {general first, refined first} x "
                 "{N or T redefined} x {inline members, $ref parent} (thorough: all 32; quick: 8 covering combinations), compared with the twin control ZqNeutral / zq_neutral. "
+                "Cross-location twins (paramx): N in one location and its twin in ANOTHER location of the same operation (thorough: all 12 ordered location pairs x with/without body; quick: 4 pairs covering "
+                "every location on both sides), for every table candidate with a twin and for the upper / title case spelling of every function-scope identifier. "
                 "Non-trivial = the candidate is not the control; distinct by (name, placement).")
     t0 = time.time()
     with cf.ProcessPoolExecutor(max_workers=14) as ex:
